@@ -114,10 +114,15 @@ class RouteObserver:
         self.init = 0
         aw = h.meta["aw"]
         n = len(self.lv)
-        vals = range(1, 1 << self.dw)
+        if self.dw <= 2:
+            vals, wds = range(1, 1 << self.dw), range(1 << self.dw)
+        else:       # wide bus: walking / pattern tokens
+            full = (1 << self.dw) - 1
+            wds = sorted({0, full, 0xA5 & full, 0x5A & full} | {1 << i for i in range(self.dw)})
+            vals = [v for v in wds if v]
         letters = []
         order = comp.in_names
-        for addr, r, w, wd in itertools.product(range(1 << aw), (0, 1), (0, 1), range(1 << self.dw)):
+        for addr, r, w, wd in itertools.product(range(1 << aw), (0, 1), (0, 1), wds):
             for src in [None] + [(k, v) for k in range(n) for v in vals]:
                 d = dict(addr=addr, r_stb=r, w_stb=w, w_data=wd)
                 for k in range(n):
@@ -190,12 +195,12 @@ def mux(aw, regs, ov=None, align=0):
 def configs(tier):
     out = []
     quick = tier == "quick"
-    for dw in (1, 2):
+    for dw in (1, 2, 8):
         # ---- part 1: routing --------------------------------------------------------------------
         shapes = [(1,), (2,), (3,), (1, 1), (1, 2), (2, 1), (2, 2), (1, 1, 2), (2, 1, 1), (3, 1), (1, 3),
                   (1, 2, 1, 1), (2, 2, 1, 1), (1, 2, 3), (1, 1, 1, 1, 1), (1, 1, 1, 1, 1, 1), (1, 1, 2, 1, 1, 1, 1),
                   (1, 1, 1, 1, 1, 1, 1, 1)]
-        for aws in shapes:
+        for aws in (shapes if dw <= 2 else shapes[3:12:2]):
             need = sum(1 << a for a in aws) * 2
             aw_root = max(3, (need - 1).bit_length())
             if aw_root > 5:
@@ -245,7 +250,7 @@ def configs(tier):
                 dec(5, [sub(dec(4, [sub(B, addr=4), sub(A, addr=12)]), addr=16), sub(C, addr=2)]),
             ]
         for ti, t in enumerate(trees):
-            if quick and dw == 2 and ti == 3:
+            if (quick and dw == 2 and ti == 3) or (dw == 8 and (ti not in (0, 1, 5) or quick and ti != 1)):
                 continue        # nested tree on a 2-bit bus: 5e4 states x 256 letters, thorough only
             for side in ("r", "w"):
                 out.append(dict(part=2, dw=dw, side=side, tree=t))
